@@ -10,7 +10,8 @@
    ops (c16router): route <req> X <k> <scid>* G <n> (<chan>)* R <k> (<nhops> (<scid> <node> <fee> <cltv>)*)*
                                                        -> valid|invalid <clause>  recur=eq|ne|skip
                    noroute <req> X <k> <scid>* G <n> (<chan>)*     -> ref=found | ref=none
-     <req>  = <payer> <payee> <amt> <maxfee|-> <maxcltv> <maxpaths> <maxlen> <finalcltv>
+     <req>  = <payer> <payee> <amt> <maxfee|-> <maxcltv> <maxpaths> <maxlen> <finalcltv> <mpp> <satpow> <scorer> <seed>
+              (the last four are replay information for the harness, ignored here)
      <chan> = <scid> <src> <dst> <enabled> <htlcmin> <htlcmax> <cap_msat|-> <base> <prop> <cltv> -/
 import LdkModel.Driver.Util
 import LdkModel.Model.RouteValid
@@ -89,7 +90,7 @@ def parsePaths : Nat → List String → List RPath → Option (Route × List St
 /-- `<req> X <k> <scid>* G <n> <chan>*` → (params, graph, remaining tokens) -/
 def parseReq (ws : List String) : Option (Params × Graph × List String) :=
   match ws with
-  | payer :: payee :: amt :: maxfee :: maxcltv :: maxpaths :: maxlen :: finalcltv :: "X" :: k :: rest =>
+  | payer :: payee :: amt :: maxfee :: maxcltv :: maxpaths :: maxlen :: finalcltv :: _mpp :: _sat :: _scorer :: _seed :: "X" :: k :: rest =>
     match takeNats (nat! k) rest [] with
     | some (excl, "G" :: n :: rest') =>
       match parseChans (nat! n) rest' [] with
